@@ -126,6 +126,21 @@ class Real:
         with open(self.path, "r", encoding="utf8") as fh:
             return canon_doc(json.load(fh, object_pairs_hook=list))
 
+    def connection(self):
+        """One connection: returns post(path, body) -> (status, body) bound to one fresh handler,
+        and the handler (so that callers can read is_encrypted / client_uuid afterwards)."""
+        import h11
+        from pyhap.hap_handler import HAPServerHandler
+
+        h = HAPServerHandler(self.driver, ("127.0.0.1", 40001))
+
+        def post(path: str, body: bytes):
+            req = h11.Request(method="POST", target=path, headers=[("Host", "hap"), ("Content-Length", str(len(body)))])
+            r = h.dispatch(req, body)
+            return r.status_code, bytes(r.body)
+
+        return post, h
+
     def request(self, enc: bool, cu: Optional[int], body: bytes):
         import h11
         from pyhap.hap_handler import HAPServerHandler
@@ -441,33 +456,43 @@ def random_script(ctx: Ctx) -> List[Dict[str, Any]]:
     rng = ctx.rng
     pool = [rng.choice(EDGE_UUIDS) if rng.random() < 0.1 else rng.getrandbits(128) for _ in range(rng.choice([2, 3, 3, 4, 5]))]
     ops: List[Dict[str, Any]] = []
+    shadow: Dict[int, int] = {}  # generator's guess of uuid -> permission (only steers the choice of connections)
     if rng.random() < 0.93:
         ops.append(setup(spell(rng, pool[0]), key_of(rng)))
+        shadow[pool[0]] = 1
     if rng.random() < 0.15:
         ops.append(setup(spell(rng, pool[1]), key_of(rng)))
+        shadow[pool[1]] = 1
     for _ in range(rng.randrange(3, 14)):
+        admins = [u for u, p in shadow.items() if p & 1]
         r = rng.random()
-        if r < 0.68:
-            cu, enc = rng.choice(pool[:2] if rng.random() < 0.7 else pool), True
-        elif r < 0.78:
+        if r < 0.62 and admins:
+            cu, enc = rng.choice(admins), True
+        elif r < 0.74:
+            cu, enc = rng.choice(pool), True
+        elif r < 0.82:
             cu, enc = None, False
-        elif r < 0.84:
-            cu, enc = rng.choice(pool), False
         elif r < 0.87:
+            cu, enc = rng.choice(pool), False
+        elif r < 0.89:
             cu, enc = None, True
         else:
             cu, enc = rng.getrandbits(128), True
+        served = enc and cu in admins
         k = rng.random()
         if k < 0.40:
             target = rng.choice(pool) if rng.random() < 0.85 else rng.getrandbits(128)
             idb = spell(rng, target)
-            if rng.random() < 0.07:
+            bad_id = rng.random() < 0.07
+            if bad_id:
                 idb = rng.choice(BAD_IDS + ODD_IDS)
             key = key_of(rng, 32 if rng.random() < 0.9 else rng.choice([0, 1, 31, 255, 256, 300]))
             pr = rng.random()
-            if pr < 0.72:
-                perms = bytes([rng.choice([0, 1, 0, 1, 2, 3, 254, 255, rng.randrange(256)])])
-            elif pr < 0.84:
+            if pr < 0.78:
+                perms = bytes([rng.choice([0, 1, 0, 1, 1, 2, 3, 254, 255, rng.randrange(256)])])
+                if target in admins and len(admins) == 1 and rng.random() < 0.7:
+                    perms = b"\x01"  # mostly keep the only admin an admin
+            elif pr < 0.87:
                 perms = b""
             elif pr < 0.97:
                 perms = bytes([rng.randrange(2), rng.randrange(256)])
@@ -475,12 +500,22 @@ def random_script(ctx: Ctx) -> List[Dict[str, Any]]:
                 perms = bytes(rng.randrange(256) for _ in range(3))
             drop = rng.choice([refp.T_USER, refp.T_PUB, refp.T_PERM]) if rng.random() < 0.06 else None
             ops.append(req(cu, add_body(idb, key, perms, drop=drop), enc))
-        elif k < 0.64:
+            if served and not bad_id and drop is None and len(perms) == 1:
+                shadow[target] = perms[0]
+        elif k < 0.62:
             target = rng.choice(pool) if rng.random() < 0.8 else rng.getrandbits(128)
+            if target in admins and len(admins) == 1 and rng.random() < 0.6:
+                target = rng.choice(pool)
             idb = spell(rng, target)
-            if rng.random() < 0.07:
+            bad_id = rng.random() < 0.07
+            if bad_id:
                 idb = rng.choice(BAD_IDS + ODD_IDS)
-            ops.append(req(cu, remove_body(idb, drop=refp.T_USER if rng.random() < 0.04 else None), enc))
+            drop = refp.T_USER if rng.random() < 0.04 else None
+            ops.append(req(cu, remove_body(idb, drop=drop), enc))
+            if served and not bad_id and drop is None and target in shadow:
+                del shadow[target]
+                if not any(p & 1 for p in shadow.values()):
+                    shadow.clear()
         elif k < 0.92:
             ops.append(req(cu, LIST_BODY, enc))
         else:
@@ -496,7 +531,8 @@ def random_script(ctx: Ctx) -> List[Dict[str, Any]]:
                 ops.append(req(cu, body_of([(0, b"")]), enc))
             else:
                 ops.append(req(cu, hx(bytes(rng.randrange(256) for _ in range(rng.randrange(1, 12)))), enc))
-    ops.append(req(pool[0], LIST_BODY))
+    admins = [u for u, p in shadow.items() if p & 1]
+    ops.append(req(admins[0] if admins else pool[0], LIST_BODY))
     return ops
 
 
@@ -578,7 +614,7 @@ def run(ctx: Ctx):
     )
     scripts = boundary_scripts(ctx)
     n_boundary = len(scripts)
-    for _ in range(ctx.n(700, 12000)):
+    for _ in range(ctx.n(1500, 20000)):
         scripts.append(random_script(ctx))
 
     idents, impl = [], []
